@@ -5,6 +5,7 @@ import CCVerif.Lemmas.CheckerSound
 import CCVerif.Lemmas.CheckerSound1
 import CCVerif.Lemmas.CheckerSoundTop
 import CCVerif.Lemmas.CheckerCompleteTop
+import CCVerif.Lemmas.CheckerComplete3Top
 import CCVerif.Lemmas.CheckerTotal
 import CCVerif.Model.CheckerPinned
 import CCVerif.Model.CheckerPinnedRec
@@ -1222,5 +1223,283 @@ theorem check_complete_needs_argnames_counterexample :
       ArgDecls.nil)
     (HasType.equal (t1 := .base "X1") (t2 := .base "X1") (Or.inl rfl)
       (HasType.local_ (t := .base "X1") (by decide)) (HasType.local_ (t := .base "X1") (by decide)) (by decide))
+
+/-! ## completeness beyond the first fragment: filters and calls (with template instantiation) -/
+
+/-- COMPLETENESS of the checker model on the fragment `CFrag2Top` (Lemmas/CheckerComplete3Top) = the fragment of
+`check_complete_partial1` (`CFragTop.to2`) PLUS filters `Fi i,j [P1, …, Pk](A)` / `Fi i,j [P](A)` (all three
+rules: one parameter per index, one parameter set of tuples, argument of the any-type / `∅`) and calls
+`F[a1, …, an]` of term-functions and predicates, templated or not, nested arbitrarily: a whole input that has a
+type in the declarative system is ACCEPTED with EXACTLY that type and argument list. For a templated call the
+rule `HasType.call` asks that the reference constraint solver (`matchArg` per argument, `solve` = every radical
+is the join of all its occurrences) finds the instantiation `σ`; the theorem says that the checker's
+`CompareTemplated` over the mangled radicals then FINDS it too (Lemmas/TemplatesComplete `ct_complete`,
+`args_complete`) and reports `σ(result)`, radicals that only met the any-type becoming `R0`. The rule fixes `σ`
+(it is a function of the argument types), so the relation stays functional: `type_unique_partial2`.
+Side conditions of a call: exactly those of `check_sound_partial1` (`Core1.sCall` / `lCall`): the context is
+`CtxOk`; a call in a set position names a global whose declared type is not LOGIC, in a logic position one
+whose type is LOGIC. R{p := e | step} and R{p := e | cond | step} are in the fragment under the explicit bound
+hypothesis `RecBounded Γ p step` (Lemmas/CheckerCompleteRec): whenever the premises of the rule hold, the join
+chain reaches its fixed point within `typeDeductionDepth` = 5 rounds of the checker (`StepReachN`); sufficient
+condition `recBounded_of_const`. Without it completeness FAILS: `recursion_needs_bound_counterexample`.
+`hxs`: as in `check_complete_partial1`. -/
+theorem check_complete_partial2 (Γ : Ctx) (xs : List String) (e : Ast) (τ : ExprTy) (args : List (String × Ty))
+    (hc : CFrag2Top Γ xs e) (hxs : args.map Prod.fst = xs) (h : HasTopType Γ e τ args) :
+    (check Γ e).out = .ok τ ∧ (check Γ e).args = args :=
+  cfrag2_check_complete Γ hc τ args h hxs
+
+/-- on the fragment with filters and calls the declarative relation is functional -/
+theorem type_unique_partial2 (Γ : Ctx) (xs : List String) (e : Ast) (τ τ' : ExprTy) (args args' : List (String × Ty))
+    (hc : CFrag2Top Γ xs e) (hxs : args.map Prod.fst = xs) (hxs' : args'.map Prod.fst = xs)
+    (h : HasTopType Γ e τ args) (h' : HasTopType Γ e τ' args') : τ = τ' ∧ args = args' := by
+  obtain ⟨a1, a2⟩ := check_complete_partial2 Γ xs e τ args hc hxs h
+  obtain ⟨b1, b2⟩ := check_complete_partial2 Γ xs e τ' args' hc hxs' h'
+  rw [a1] at b1
+  exact ⟨by cases b1; rfl, a2.symm.trans b2⟩
+
+/-- the checker DECIDES typability on the fragment with filters and calls, and the type it reports is the
+type (soundness `check_sound_partial1` + completeness `check_complete_partial2`) -/
+theorem check_decides_partial2 (Γ : Ctx) (xs : List String) (e : Ast) (hw : WfTop Γ xs e) (hc : CFrag2Top Γ xs e) :
+    ((∃ τ, (check Γ e).out = .ok τ) ↔ ∃ τ args, HasTopType Γ e τ args ∧ args.map Prod.fst = xs) ∧
+    (∀ τ, (check Γ e).out = .ok τ ↔ ∃ args, HasTopType Γ e τ args ∧ args.map Prod.fst = xs) := by
+  have key : ∀ τ, (check Γ e).out = .ok τ ↔ ∃ args, HasTopType Γ e τ args ∧ args.map Prod.fst = xs := by
+    intro τ
+    constructor
+    · intro h
+      exact ⟨_, check_sound_partial1 Γ e τ hc.core1 h, args_reported Γ xs e hw τ h⟩
+    · rintro ⟨args, h, hxs⟩
+      exact (check_complete_partial2 Γ xs e τ args hc hxs h).1
+  refine ⟨⟨fun ⟨τ, h⟩ => ⟨τ, (key τ).mp h⟩, fun ⟨τ, args, h⟩ => ⟨τ, (key τ).mpr ⟨args, h⟩⟩⟩, key⟩
+
+private theorem mem1 {α : Type} {P : α → Prop} {a : α} (h : P a) : ∀ k, k ∈ [a] → P k := by
+  intro k hk; simp only [List.mem_cons, List.not_mem_nil, or_false] at hk; subst hk; exact h
+private theorem mem2 {α : Type} {P : α → Prop} {a b : α} (ha : P a) (hb : P b) : ∀ k, k ∈ [a, b] → P k := by
+  intro k hk; simp only [List.mem_cons, List.not_mem_nil, or_false] at hk
+  rcases hk with rfl | rfl
+  · exact ha
+  · exact hb
+
+/-- a typable input of the fragment, from the checker's verdict (soundness) -/
+private theorem typable_of_check {Γ : Ctx} {xs : List String} {e : Ast} {τ : ExprTy} (hc : CFrag2Top Γ xs e)
+    (h : (check Γ e).out = .ok τ) (ha : (check Γ e).args = []) : HasTopType Γ e τ [] := by
+  have := check_sound_partial1 Γ e τ hc.core1 h
+  rw [ha] at this; exact this
+
+/-- `Fi1[X1](S1)` (one parameter per index) -/
+private def exFilterEach : Ast := .node .FILTER (.tuple [1]) 0 11 ([glob "X1" 4 6] ++ [glob "S1" 8 10])
+/-- `Fi1,2[S1](S1)` (one parameter for two indices: a set of pairs) -/
+private def exFilterOne : Ast := .node .FILTER (.tuple [1, 2]) 0 13 ([glob "S1" 6 8] ++ [glob "S1" 10 12])
+/-- `Fi1[X1](∅)` (the any-type corner) -/
+private def exFilterAny : Ast := .node .FILTER (.tuple [1]) 0 10 ([glob "X1" 4 6] ++ [.node .LIT_EMPTYSET .none 8 9 []])
+
+private theorem exFilterEach_frag : CFrag2Top ctxK [] exFilterEach :=
+  .ofDef (.expr (Or.inl (.sFilter (by decide) (by simp) (mem1 (.sGlobal (Or.inl rfl))) (.sGlobal (Or.inl rfl)))))
+private theorem exFilterOne_frag : CFrag2Top ctxK [] exFilterOne :=
+  .ofDef (.expr (Or.inl (.sFilter (by decide) (by simp) (mem1 (.sGlobal (Or.inl rfl))) (.sGlobal (Or.inl rfl)))))
+private theorem exFilterAny_frag : CFrag2Top ctxK [] exFilterAny :=
+  .ofDef (.expr (Or.inl (.sFilter (by decide) (by simp) (mem1 (.sGlobal (Or.inl rfl))) .sEmpty)))
+
+/-- non-vacuity (filters, all three rules): in the fragment and typable — `Fi1[X1](S1) : ℬ(X1×X1)`,
+`Fi1,2[S1](S1) : ℬ(X1×X1)`, `Fi1[X1](∅) : ℬ(R0)` -/
+example : CFrag2Top ctxK [] exFilterEach ∧ HasTopType ctxK exFilterEach (.ty (.coll (.tuple [.base "X1", .base "X1"]))) [] :=
+  ⟨exFilterEach_frag, typable_of_check exFilterEach_frag (by decide +kernel) (by decide +kernel)⟩
+example : CFrag2Top ctxK [] exFilterOne ∧ HasTopType ctxK exFilterOne (.ty (.coll (.tuple [.base "X1", .base "X1"]))) [] :=
+  ⟨exFilterOne_frag, typable_of_check exFilterOne_frag (by decide +kernel) (by decide +kernel)⟩
+example : CFrag2Top ctxK [] exFilterAny ∧ HasTopType ctxK exFilterAny (.ty Ty.emptySet) [] :=
+  ⟨exFilterAny_frag, typable_of_check exFilterAny_frag (by decide +kernel) (by decide +kernel)⟩
+
+/-- an ill-typed filter: `Fi1[S1](S1)` (the parameter ℬ(X1×X1) is not a set of first components) has NO type -/
+example : ¬ ∃ τ args, HasTopType ctxK (.node .FILTER (.tuple [1]) 0 11 ([glob "S1" 4 6] ++ [glob "S1" 8 10])) τ args ∧
+    args.map Prod.fst = [] := by
+  rintro ⟨τ, args, h, hxs⟩
+  have hc : CFrag2Top ctxK [] (.node .FILTER (.tuple [1]) 0 11 ([glob "S1" 4 6] ++ [glob "S1" 8 10])) :=
+    .ofDef (.expr (Or.inl (.sFilter (by decide) (by simp) (mem1 (.sGlobal (Or.inl rfl))) (.sGlobal (Or.inl rfl)))))
+  have h1 := (check_complete_partial2 ctxK [] _ τ args hc hxs h).1
+  have h2 : (check ctxK (.node .FILTER (.tuple [1]) 0 11 ([glob "S1" 4 6] ++ [glob "S1" 8 10]))).out = .fail := by
+    decide +kernel
+  rw [h2] at h1; cases h1
+
+/-- non-vacuity (calls): `∀x∈X1 (x∈F1[X1, x] & P1[x])` — the templated `F1 : [a∈ℬ(R1), b∈R1] → ℬ(R1)` at `R1 ↦ X1`
+and the non-templated predicate `P1 : [a∈X1] → LOGIC` — is in the fragment and has the type LOGIC -/
+private theorem exCall_frag : CFrag2Top ctxF [] exCall :=
+  .ofDef (.expr (Or.inr (.lQuant (Or.inl rfl) (.deOfD .dLocal) (.sGlobal (Or.inl rfl))
+    (.lBin (Or.inl rfl)
+      (.lElem (Or.inl rfl) .sLocal (.sCall ctxF_ok (by decide) (mem2 (.sGlobal (Or.inl rfl)) .sLocal)))
+      (.lCall ctxF_ok (by decide) (mem1 .sLocal))))))
+example : CFrag2Top ctxF [] exCall ∧ HasTopType ctxF exCall .logic [] :=
+  ⟨exCall_frag, typable_of_check exCall_frag (by decide +kernel) (by decide +kernel)⟩
+
+/-- `F1[∅, ∅]`: the template parameter meets the any-type (`ℬ(R1)` against `ℬ(R0)`) and a set (`R1` against
+`ℬ(R0)`): `R1 ↦ R0 ⊔ ℬ(R0) = ℬ(R0)`, the principal result is `ℬℬ(R0)` -/
+private def exCallEmpty : Ast :=
+  .node .NT_FUNC_CALL .none 0 9 [.node .ID_FUNCTION (.text "F1") 0 2 [],
+    .node .LIT_EMPTYSET .none 3 4 [], .node .LIT_EMPTYSET .none 6 7 []]
+private theorem exCallEmpty_frag : CFrag2Top ctxF [] exCallEmpty :=
+  .ofDef (.expr (Or.inl (.sCall ctxF_ok (by decide) (mem2 .sEmpty .sEmpty))))
+example : CFrag2Top ctxF [] exCallEmpty ∧ HasTopType ctxF exCallEmpty (.ty (.coll (.coll Ty.R0))) [] :=
+  ⟨exCallEmpty_frag, typable_of_check exCallEmpty_frag (by decide +kernel) (by decide +kernel)⟩
+
+/-- `∀p∈S1 p∈F1[X1×X1, p]`: the template parameter is instantiated by a tuple type, `R1 ↦ X1×X1` -/
+private def exCallPair : Ast :=
+  .node .FORALL .none 0 24 [loc "p" 1 2, glob "S1" 3 5,
+    .node .IN .none 7 23 [loc "p" 7 8,
+      .node .NT_FUNC_CALL .none 9 23 [.node .ID_FUNCTION (.text "F1") 9 11 [],
+        .node .DECART .none 12 17 [glob "X1" 12 14, glob "X1" 15 17], loc "p" 19 20]]]
+private theorem exCallPair_frag : CFrag2Top ctxF [] exCallPair :=
+  .ofDef (.expr (Or.inr (.lQuant (Or.inl rfl) (.deOfD .dLocal) (.sGlobal (Or.inl rfl))
+    (.lElem (Or.inl rfl) .sLocal (.sCall ctxF_ok (by decide)
+      (mem2 (.sMany (Or.inl rfl) (mem2 (.sGlobal (Or.inl rfl)) (.sGlobal (Or.inl rfl)))) .sLocal))))))
+example : CFrag2Top ctxF [] exCallPair ∧ HasTopType ctxF exCallPair .logic [] :=
+  ⟨exCallPair_frag, typable_of_check exCallPair_frag (by decide +kernel) (by decide +kernel)⟩
+/-- the instance the checker reports for the call alone: `F1[X1×X1, debool(S1)] : ℬ(X1×X1)` -/
+example : (check ctxF (.node .NT_FUNC_CALL .none 0 26 [.node .ID_FUNCTION (.text "F1") 0 2 [],
+    .node .DECART .none 3 8 [glob "X1" 3 5, glob "X1" 6 8], .node .DEBOOL .none 10 20 [glob "S1" 17 19]])).out
+    = .ok (.ty (.coll (.tuple [.base "X1", .base "X1"]))) := by decide +kernel
+
+/-- no instantiation exists: `F1[X1, S4]` asks `R1 ↦ X1 ⊔ C1`, which has no join — NO type, decided by the
+checker's rejection -/
+example : ¬ ∃ τ args, HasTopType ctxF (.node .NT_FUNC_CALL .none 0 10 [.node .ID_FUNCTION (.text "F1") 0 2 [],
+    glob "X1" 3 5, glob "S4" 7 9]) τ args ∧ args.map Prod.fst = [] := by
+  rintro ⟨τ, args, h, hxs⟩
+  have hc : CFrag2Top ctxF [] (.node .NT_FUNC_CALL .none 0 10 [.node .ID_FUNCTION (.text "F1") 0 2 [],
+      glob "X1" 3 5, glob "S4" 7 9]) :=
+    .ofDef (.expr (Or.inl (.sCall ctxF_ok (by decide) (mem2 (.sGlobal (Or.inl rfl)) (.sGlobal (Or.inl rfl))))))
+  have h1 := (check_complete_partial2 ctxF [] _ τ args hc hxs h).1
+  have h2 : (check ctxF (.node .NT_FUNC_CALL .none 0 10 [.node .ID_FUNCTION (.text "F1") 0 2 [],
+      glob "X1" 3 5, glob "S4" 7 9])).out = .fail := by decide +kernel
+  rw [h2] at h1; cases h1
+
+/-- non-vacuity of `check_decides_partial2`: `exCall` also has the parser's shape -/
+example : WfTop ctxF [] exCall ∧ CFrag2Top ctxF [] exCall := by
+  refine ⟨?_, exCall_frag⟩
+  exact .ofDef (.expr (Or.inr (.lQuant (Or.inl rfl) (.deOfD .dLocal) (.sGlobal (Or.inl rfl))
+    (.lBin (Or.inl rfl)
+      (.lPred (by simp) .sLocal (.sCall (by decide) (mem2 (.sGlobal (Or.inl rfl)) .sLocal)))
+      (.lCall (mem1 .sLocal))))))
+
+/-! ### R{}: complete under the bound hypothesis, and the bound is needed -/
+
+private def tC1 : Ty := .base "C1"
+private def prA (i : Int) (lo hi : Int) : Ast := .node .SMALLPR (.tuple [i]) lo hi [loc "a" (lo + 4) (lo + 5)]
+private def int1 (lo : Int) : Ast := .node .LIT_INTEGER (.int 1) lo (lo + 1) []
+/-- `(S4, pr1(a), pr2(a), pr3(a), pr4(a), pr5(a))` -/
+private def deepStep : Ast :=
+  .node .NT_TUPLE .none 22 69 [glob "S4" 23 25, prA 1 27 33, prA 2 35 41, prA 3 43 49, prA 4 51 57, prA 5 59 65]
+/-- `R{a := (1,1,1,1,1,1) | (S4, pr1(a), pr2(a), pr3(a), pr4(a), pr5(a))}` (S4 : C1, a constant set: `Z` converts
+to `C1`): every round of the type deduction turns one more component of the variable from `Z` into `C1` -/
+def exRecDeep : Ast :=
+  .node .NT_RECURSIVE_SHORT .none 0 70 [loc "a" 2 3,
+    .node .NT_TUPLE .none 5 18 [int1 6, int1 8, int1 10, int1 12, int1 14, int1 16], deepStep]
+
+private theorem prA_ty (cs : List Ty) (c : Ty) (i : Int) (lo hi : Int) (h : pick cs [i] = some [c]) :
+    HasType ctxK (({} : Env).add "a" (.tuple cs)) (prA i lo hi) (.ty c) :=
+  HasType.smallpr (cs := cs) (comps := [c]) (by simp [notEmptyLit, loc, Ast.id])
+    (HasType.local_ (by simp [Env.get?, Env.add])) h (by simp)
+
+/-- with the variable at `(c1,…,c6)` the step has the type `(C1, c1,…,c5)` -/
+private theorem deepStep_ty (c1 c2 c3 c4 c5 c6 : Ty) :
+    HasType ctxK (({} : Env).add "a" (.tuple [c1, c2, c3, c4, c5, c6])) deepStep
+      (.ty (.tuple [tC1, c1, c2, c3, c4, c5])) :=
+  HasType.tuple (HasTypes.cons (HasType.global (Or.inl rfl) (by decide) (by decide))
+    (HasTypes.cons (prA_ty _ c1 1 _ _ (by simp [pick]))
+    (HasTypes.cons (prA_ty _ c2 2 _ _ (by simp [pick]))
+    (HasTypes.cons (prA_ty _ c3 3 _ _ (by simp [pick]))
+    (HasTypes.cons (prA_ty _ c4 4 _ _ (by simp [pick]))
+    (HasTypes.cons (prA_ty _ c5 5 _ _ (by simp [pick])) HasTypes.nil))))))
+
+private theorem bindA (t : Ty) : Binds ({} : Env) (loc "a" 2 3) t (({} : Env).add "a" t) := Binds.var (by decide)
+
+/-- THE BOUND IS NEEDED. `exRecDeep` is typable by the rules — join chain
+`(C1,Z,Z,Z,Z,Z) ⟶ (C1,C1,Z,Z,Z,Z) ⟶ … ⟶ (C1,C1,C1,C1,C1,C1)` of 5 steps, the last type is a fixed point, so the
+term has the type `C1⁶` — but `ViRecursion` gives up after `typeDeductionDepth = 5` rounds (the 5th round still
+sees the type grow) and rejects it with `typesNotEqual`. So `check_complete_statement` fails on R{} without the
+hypothesis `RecBounded`; with one component less the term is accepted. -/
+theorem recursion_needs_bound_counterexample :
+    HasTopType ctxK exRecDeep (.ty (.tuple [tC1, tC1, tC1, tC1, tC1, tC1])) [] ∧
+      (check ctxK exRecDeep).out = .fail ∧ (check ctxK exRecDeep).errs = [(0x8803, 22)] := by
+  refine ⟨?_, by decide +kernel, by decide +kernel⟩
+  refine HasTopType.expr (by decide) (by decide) (by decide) ?_
+  refine HasType.recShort (t0 := .tuple [Ty.Z, Ty.Z, Ty.Z, Ty.Z, Ty.Z, Ty.Z])
+    (t1 := .tuple [tC1, Ty.Z, Ty.Z, Ty.Z, Ty.Z, Ty.Z]) (v0 := .tuple [tC1, Ty.Z, Ty.Z, Ty.Z, Ty.Z, Ty.Z])
+    (tτ := .tuple [tC1, tC1, tC1, tC1, tC1, tC1])
+    (HasType.tuple (HasTypes.cons HasType.int (HasTypes.cons HasType.int (HasTypes.cons HasType.int
+      (HasTypes.cons HasType.int (HasTypes.cons HasType.int (HasTypes.cons HasType.int HasTypes.nil)))))))
+    (bindA _) (deepStep_ty _ _ _ _ _ _) (by decide +kernel) (by decide +kernel) ?_ (bindA _) (deepStep_ty _ _ _ _ _ _)
+    (by decide +kernel)
+  exact StepReach.step (σ'' := .tuple [tC1, tC1, Ty.Z, Ty.Z, Ty.Z, Ty.Z]) (bindA _) (deepStep_ty _ _ _ _ _ _) (by decide +kernel)
+    (StepReach.step (σ'' := .tuple [tC1, tC1, tC1, Ty.Z, Ty.Z, Ty.Z]) (bindA _) (deepStep_ty _ _ _ _ _ _) (by decide +kernel)
+    (StepReach.step (σ'' := .tuple [tC1, tC1, tC1, tC1, Ty.Z, Ty.Z]) (bindA _) (deepStep_ty _ _ _ _ _ _) (by decide +kernel)
+    (StepReach.step (σ'' := .tuple [tC1, tC1, tC1, tC1, tC1, Ty.Z]) (bindA _) (deepStep_ty _ _ _ _ _ _) (by decide +kernel)
+    (StepReach.step (σ'' := .tuple [tC1, tC1, tC1, tC1, tC1, tC1]) (bindA _) (deepStep_ty _ _ _ _ _ _) (by decide +kernel)
+    StepReach.refl))))
+
+/-! non-vacuity of the bound hypothesis: `R{a := ∅ | a∪X1}` -/
+
+private def pA : Ast := loc "a" 2 3
+private def stepU : Ast := .node .UNION .none 9 13 [loc "a" 9 10, glob "X1" 11 13]
+
+private theorem cX1 : convertsFromInt ctxK.traits (.base "X1") = false := by decide
+
+private theorem merge_X1_left (c m : Ty) (h : merge ctxK.traits (.base "X1") c = some m) : m = .base "X1" := by
+  cases c with
+  | base b =>
+    simp only [merge] at h
+    split at h
+    · simpa using h.symm
+    · split at h
+      · rename_i h2; exact absurd h2 (by decide)
+      · split at h
+        · simpa using h.symm
+        · have : commonType ctxK.traits (.base "X1") (.base b) = none := by
+            unfold commonType
+            have h1 : ((Ty.base "X1") == Ty.Z) = false := by decide
+            simp only [h1, Bool.false_eq_true, if_false, cX1]
+            split <;> rfl
+          rw [this] at h; cases h
+  | coll _ =>
+    have : ("X1" == Ty.anyName) = false := by decide
+    simp [merge, this] at h
+  | tuple _ =>
+    have : ("X1" == Ty.anyName) = false := by decide
+    simp [merge, this] at h
+
+private theorem merge_BX1 (σ σ'' : Ty) (h : merge ctxK.traits (.coll (.base "X1")) σ = some σ'') :
+    σ'' = .coll (.base "X1") := by
+  cases σ with
+  | base b => simp only [merge] at h; split at h <;> simp_all
+  | coll c =>
+    simp only [merge] at h
+    cases hm : merge ctxK.traits (.base "X1") c with
+    | none => rw [hm] at h; cases h
+    | some m => rw [hm] at h; cases h; rw [merge_X1_left _ _ hm]
+  | tuple _ => simp [merge] at h
+
+/-- whatever the type of the variable, `a∪X1` has the type ℬ(X1) -/
+private theorem stepU_ty {Δ : Env} {σ' : Ty} (h : HasType ctxK Δ stepU (.ty σ')) : σ' = .coll (.base "X1") := by
+  obtain ⟨t1, t2, e1, e2, m, _, _, _, _, h2, d2, hm, he⟩ := inv_setbin (Or.inl rfl) h
+  cases he
+  have ht2 : t2 = .coll (.base "X1") := by
+    cases h2 with
+    | global _ _ hl =>
+      have : lookup ctxK.types "X1" = some (.ty (.coll (.base "X1"))) := by decide
+      rw [this] at hl; cases hl; rfl
+    | _ => simp_all
+  subst ht2
+  cases d2
+  rw [merge_comm] at hm
+  rw [merge_X1_left _ _ hm]
+
+/-- the chain of `R{a := … | a∪X1}` stabilises within two rounds, whatever the initial value -/
+private theorem recBounded_stepU : RecBounded ctxK pA stepU :=
+  recBounded_of_const (.coll (.base "X1")) (fun _ _ h => stepU_ty h) merge_BX1
+
+private theorem exRecShort_frag : CFrag2Top ctxK [] exRecShort :=
+  .ofDef (.expr (Or.inl (.sRecShort .dLocal .sEmpty (.sSetbin (Or.inl rfl) .sLocal (.sGlobal (Or.inl rfl)))
+    recBounded_stepU)))
+
+/-- non-vacuity (R{} under the bound hypothesis): `R{a := ∅ | a∪X1}` is in the fragment — its chain
+ℬ(R0) ⟶ ℬ(X1) stabilises in two rounds — and has the type ℬ(X1) -/
+example : CFrag2Top ctxK [] exRecShort ∧ HasTopType ctxK exRecShort (.ty (.coll (.base "X1"))) [] :=
+  ⟨exRecShort_frag, typable_of_check exRecShort_frag (by decide +kernel) (by decide +kernel)⟩
 
 end CCVerif.C03
